@@ -320,7 +320,10 @@ ElemNumber::findPrecedingOrAncestorOrSelf(
 
     while (thePos != 0)
     {
-        if (0 != fromMatchPattern)
+        // Only nodes before the context node can end the
+        // search (XSLT 7.7: "the first node before the
+        // current node that matches the from pattern").
+        if (0 != fromMatchPattern && thePos != context)
         {
             if (fromMatchPattern->getMatchScore(
                     thePos,
@@ -674,19 +677,6 @@ ElemNumber::getPreviousNode(
             if(0 == next)
             {
                 next = pos->getParentNode();
-
-                if(0 != next &&
-                   (next->getNodeType() == XalanNode::DOCUMENT_NODE ||
-                    (0 != fromMatchPattern &&
-                         fromMatchPattern->getMatchScore(
-                             next,
-                             *this,
-                             executionContext) != XPath::eMatchScoreNone)))
-                {
-                    pos = 0; // return 0 from function.
-
-                    break; // from while loop
-                }
             }
             else
             {
@@ -700,6 +690,21 @@ ElemNumber::getPreviousNode(
                     if(0 != child)
                         next = child;
                 }
+            }
+
+            // Every node walked over is tested against the 'from'
+            // pattern, not only the ancestors: counting stops at the
+            // first node before the counted node that matches it.
+            if(0 != next &&
+               0 != fromMatchPattern &&
+               fromMatchPattern->getMatchScore(
+                    next,
+                    *this,
+                    executionContext) != XPath::eMatchScoreNone)
+            {
+                pos = 0; // return 0 from function.
+
+                break; // from while loop
             }
 
             pos = next;
@@ -803,24 +808,21 @@ ElemNumber::getMatchingAncestors(
         countMatchPattern = xpathGuard.get();
     }
 
+    const XalanNode* const  theContextNode = node;
+
     while (0 != node)
     {
+        // Only the ancestors that are descendants of the nearest
+        // ancestor matching the 'from' pattern are searched, for
+        // level="single" as well as for level="multiple" (XSLT 7.7).
         if (0 != m_fromMatchPattern &&
+            node != theContextNode &&
             m_fromMatchPattern->getMatchScore(
                 node,
                 *this,
                 executionContext) != XPath::eMatchScoreNone)
         {
-            // The following if statement gives level="single" different 
-            // behavior from level="multiple", which seems incorrect according 
-            // to the XSLT spec.  For now we are leaving this in to replicate 
-            // the same behavior in XT, but, for all intents and purposes we 
-            // think this is a bug, or there is something about level="single" 
-            // that we still don't understand.
-            if(!stopAtFirstFound)
-            {
-                break;
-            }
+            break;
         }
 
         assert(0 != countMatchPattern);
